@@ -99,6 +99,19 @@ def build(rec):
                 + cs[1] * v * ufl.ds(domain=mesh)), mesh, cell
     if kind == "zero-factor":
         return (0 * cs[0] * v * ufl.dx(domain=mesh) + cs[3][gdim - 1] * k2[gdim - 1, 0] * v * ufl.dx(domain=mesh)), mesh, cell
+    if kind == "deriv-const-first":
+        # the first constant lives only in a term that differentiation removes; later constants survive
+        v1 = ufl.TestFunction(V["P1"])
+        F = k0 * v1 * ufl.dx(domain=mesh) + ufl.inner(k2 * ufl.grad(cs[1]), ufl.grad(v1)) * ufl.dx(domain=mesh) + k1[gdim - 1] * cs[1] ** 2 * v1 * ufl.ds(domain=mesh)
+        return ufl.derivative(F, cs[1], ufl.TrialFunction(V["P1"])), mesh, cell
+    if kind == "deriv-const-middle":
+        v1 = ufl.TestFunction(V["P1"])
+        F = k0 * cs[1] ** 2 * v1 * ufl.dx(domain=mesh) + ufl.inner(k1, k1) * v1 * ufl.dx(domain=mesh) + k2[0, gdim - 1] * cs[1] * cs[0] * v1 * ufl.dx(domain=mesh)
+        return ufl.derivative(F, cs[1], ufl.TrialFunction(V["P1"])), mesh, cell
+    if kind == "cancel-const":
+        return (k0 * v * ufl.dx(domain=mesh) - k0 * v * ufl.dx(domain=mesh) + k1[gdim - 1] * cs[1] * v * ufl.dx(domain=mesh) + k2[gdim - 1, 0] * v * ufl.ds(domain=mesh)), mesh, cell
+    if kind == "zero-const":
+        return (0 * k1[0] * v * ufl.dx(domain=mesh) + k2[gdim - 1, 0] * cs[0] * v * ufl.dx(domain=mesh)), mesh, cell
     if kind == "consts-only-last":
         return (cs[1] * k2[0, 0] * v * ufl.dx(domain=mesh) + k1[gdim - 1] * v * ufl.ds(domain=mesh)), mesh, cell
     raise KeyError(kind)
@@ -127,7 +140,7 @@ def enumerate_recipes(thorough):
                 out.append(dict(cell=cell, measures=["dx1", "dS"], patterns=[p, q], arity=ar))
         for cu in itertools.product([[], [0], [1], [2], [0, 2], [2, 1]], repeat=2):
             out.append(dict(cell=cell, measures=["dx", "ds1"], patterns=[[1], [0]], arity=1, consts=[list(cu[0]), list(cu[1])]))
-        for kind in ("derivative", "derivative2", "cancel", "zero-factor", "consts-only-last"):
+        for kind in ("derivative", "derivative2", "cancel", "zero-factor", "consts-only-last", "deriv-const-first", "deriv-const-middle", "cancel-const", "zero-const"):
             out.append(dict(cell=cell, kind=kind))
         if cell in ("triangle", "interval"):
             for p in ([0], [1], [0, 1], [3], [1, 3]):
